@@ -706,6 +706,22 @@ func damageFile(fn string, r *gen.Rand, kind int, skip int) string {
 	return fmt.Sprintf("truncate %s@%d", filepath.Base(fn), pos)
 }
 
+// recordEnds returns the offsets at which the records of a one-segment wlog file end.
+func recordEnds(fn string) []int64 {
+	s, err := wlog.OpenReadSegment(fn)
+	if err != nil {
+		return nil
+	}
+	sr := wlog.NewSegmentBufReader(s)
+	defer sr.Close()
+	r := wlog.NewReader(sr)
+	var out []int64
+	for r.Next() {
+		out = append(out, r.Offset())
+	}
+	return out
+}
+
 // ---------------------------------------------------------------- Gallina printing
 
 func gSmp(ss []smp) string {
@@ -950,7 +966,7 @@ func main() {
 	cf := &gallina.CaseFile{Dir: f.Out, Type: "case", PerShard: 40,
 		Preamble: "From Coq Require Import List ZArith Bool.\nFrom Verif Require Import model.Snapshot corr.CorrC23.\nImport ListNotations.\nOpen Scope Z_scope.\n",
 		Footer:   gallina.StdFooter}
-	n := f.Count(10, 150)
+	n := f.Count(5, 96)
 	debug := os.Getenv("C23_DEBUG") != ""
 	scratch, err := os.MkdirTemp(f.Out, "c23_")
 	if err != nil {
@@ -999,7 +1015,8 @@ func main() {
 			continue
 		}
 		_ = pre
-		variant := func(name string, prep func(dir string) bool, snap bool, full bool) *obsT {
+		var variant func(name string, prep func(dir string) bool, snap bool, full bool) *obsT
+		variant = func(name string, prep func(dir string) bool, snap bool, full bool) *obsT {
 			d := filepath.Join(scratch, fmt.Sprintf("h%d_%s", i, name))
 			defer os.RemoveAll(d)
 			if err := copyDir(base, d); err != nil {
@@ -1026,9 +1043,58 @@ func main() {
 			os.RemoveAll(base)
 			continue
 		}
+		// quick tier: a and b always, the corpus histories get every variant, a generated history
+		// one of three groups of the remaining variants; thorough tier: everything
+		allVariants := f.Tier == "thorough" || i < len(corpus)
+		grp := i % 3
+		want := func(g int) bool { return allVariants || grp == g }
+		inner := variant
+		variant = func(name string, prep func(dir string) bool, snap bool, full bool) *obsT {
+			g := map[string]int{"a": -1, "b": -1, "off": 0, "c": 0, "d1": 1, "d2": 1, "e": 2, "e2": 2, "cp": 0}[name]
+			if g >= 0 && !want(g) {
+				return nil
+			}
+			return inner(name, prep, snap, full)
+		}
 		oa := variant("a", nil, true, false)
 		ob := variant("b", func(d string) bool { return os.RemoveAll(snapshotDir(d)) == nil }, true, true)
 		ooff := variant("off", nil, false, false)
+		// cp: the snapshot file cut one byte behind a record boundary (only the type byte of the
+		// next record survives; the segment reader pads a short file with zeros up to the page
+		// boundary, which turns that byte into a valid header of an EMPTY record)
+		ocp := variant("cp", func(d string) bool {
+			fn := firstFile(snapshotDir(d))
+			if fn == "" {
+				return false
+			}
+			ends := recordEnds(fn)
+			if len(ends) < 2 {
+				return false
+			}
+			k := r.Intn(len(ends) - 1) // not behind the last record: nothing follows it
+			cut := int64(0)
+			if k > 0 || r.Bool() {
+				cut = ends[k]
+			}
+			desc.Damage["cp"] = fmt.Sprintf("truncate %s@%d (record boundary + 1)", filepath.Base(fn), cut+1)
+			return os.Truncate(fn, cut+1) == nil
+		}, true, false)
+		if ocp != nil {
+			switch {
+			case ocp.Panic:
+				desc.Shape = "damaged-snapshot-panics"
+				meta.Hit("cp-panic")
+				meta.GoViol = append(meta.GoViol, gallina.GoViolation{ID: fmt.Sprint(i), Shape: "damaged-snapshot-panics", What: ocp.Err + "; " + desc.Damage["cp"]})
+			case ocp.Err != "":
+				meta.Hit("cp-error")
+				meta.GoViol = append(meta.GoViol, gallina.GoViolation{ID: fmt.Sprint(i), Shape: "variant-cp-error", What: ocp.Err + "; " + desc.Damage["cp"]})
+			case ob != nil && ob.Err == "" && !eqAnswer(ocp.Q, ob.Q):
+				meta.Hit("cp-differs-from-b")
+				meta.GoViol = append(meta.GoViol, gallina.GoViolation{ID: fmt.Sprint(i), Shape: "damaged-snapshot-changes-answer", What: fmt.Sprintf("cp %v b %v; %s", ocp.Q, ob.Q, desc.Damage["cp"])})
+			default:
+				meta.Hit("cp-falls-back")
+			}
+		}
 		kind := r.Intn(3)
 		if kind == 2 {
 			kind = 0
@@ -1144,7 +1210,8 @@ func main() {
 		}
 		// an unnoticed flip in the head chunk file (e.g. inside unused space) : keep (results must still agree)
 		if staleNonPos {
-			desc.Shape = "outdated-snapshot-skips-nonpositive-timestamps"
+			// regression class of the fixed defect (/repo 5693077124): WAL records with
+			// timestamps <= 0 replayed behind an outdated snapshot
 			meta.Hit("outdated-snapshot-with-nonpositive-timestamps")
 		}
 		// without readable head chunk files Init needs the whole WAL: d2 is not applicable
@@ -1247,6 +1314,11 @@ func corpusHistories() []corpusT {
 			{K: "del", Mint: 0, Maxt: 150, Sel: 0}, {K: "restart", Snap: true}, tx(appT{0, 700, 7, false})}}},
 		{"outdated-snapshot-nonpositive", histT{Cfg: cfgT{BlockRange: 1000, OOOWindow: 0, SPC: 120, MaxEx: 0, NSeries: 1}, FirstSnap: true, Ops: []opT{
 			tx(appT{0, -300, 1, false}), {K: "restart", Snap: false}, tx(appT{0, -200, 2, false}), tx(appT{0, 0, 3, false}), tx(appT{0, 1, 4, false})}}},
+		{"recreated-series", histT{Cfg: cfgT{BlockRange: 1000, OOOWindow: 0, SPC: 2, MaxEx: 0, NSeries: 2}, FirstSnap: false, Ops: []opT{
+			tx(appT{0, 100, 1, false}, appT{1, 110, 2, false}), tx(appT{0, 200, 3, false}), tx(appT{1, 900, 4, false}), tx(appT{1, 1700, 5, false}),
+			tx(appT{1, 2700, 6, false}), tx(appT{1, 3200, 7, false}), {K: "compact"},
+			tx(appT{0, 3300, 8, false}), tx(appT{0, 3400, 9, false}), tx(appT{0, 3500, 10, false}),
+			{K: "restart", Snap: false}, tx(appT{0, 3600, 11, false}), {K: "restart", Snap: true}, tx(appT{0, 3700, 12, false})}}},
 		{"compaction", histT{Cfg: c, FirstSnap: true, Ops: []opT{
 			tx(appT{0, 100, 1, false}, appT{1, 150, 2, false}), tx(appT{0, 900, 3, false}), tx(appT{0, 1700, 4, false}, appT{1, 1800, 5, false}),
 			tx(appT{0, 2700, 6, false}), {K: "compact"}, tx(appT{0, 2800, 7, false}), {K: "del", Mint: 2000, Maxt: 2750, Sel: -1},
